@@ -665,10 +665,20 @@ func run(c *fw.Ctx) {
 			}
 		}
 	}
+	runSiblings(c, &item)
 	c.R.Distinct = c.R.Evaluations
 }
 
 func replay(w json.RawMessage) (*fw.Violation, error) {
+	var sw struct {
+		Siblings *sibWit `json:"siblings"`
+	}
+	if err := json.Unmarshal(w, &sw); err == nil && sw.Siblings != nil {
+		if vd := runSibling(*sw.Siblings); vd != nil && vd.kind != "harness" {
+			return &fw.Violation{Property: "C03", Clause: vd.clause, Signature: "C03/siblings/" + vd.kind + "/replay", Detail: vd.detail}, nil
+		}
+		return nil, nil
+	}
 	var wit witness
 	if err := json.Unmarshal(w, &wit); err != nil {
 		return nil, err
@@ -687,7 +697,7 @@ func replay(w json.RawMessage) (*fw.Violation, error) {
 
 func init() {
 	fw.Register(&fw.Check{ID: "C03", Level: "exploration",
-		Rule: "all path strings of <=3 (quick) / <=4 (thorough) segments over {n, '.', '..', ''} with and without leading '/' (climbing paths also with backslash as separator, all and first only), x all 16 operations (both arguments of the copy operations, and the path used as Filespace() argument followed by write/list/remove) x 24 view kinds (memory, disk, encrypted incl. stores written through the encryption, read-only, sub-path, cache-backed; depth 1 and 2), each on a fresh store with canaries outside the view root, every case additionally after an 'outside sweep' (all read-type operations on every store node through the object the view was derived from and through a sibling view), climbing paths additionally after a harmless prelude (write / list / mkdir+remove) through the same view object; distinct = (view, op, path) cases, non-trivial = all (every case touches a populated store)",
+		Rule: "all path strings of <=3 (quick) / <=4 (thorough) segments over {n, '.', '..', ''} with and without leading '/' (climbing paths also with backslash as separator, all and first only), x all 16 operations (both arguments of the copy operations, and the path used as Filespace() argument followed by write/list/remove) x 24 view kinds (memory, disk, encrypted incl. stores written through the encryption, read-only, sub-path, cache-backed; depth 1 and 2), each on a fresh store with canaries outside the view root, every case additionally after an 'outside sweep' (all read-type operations on every store node through the object the view was derived from and through a sibling view), climbing paths additionally after a harmless prelude (write / list / mkdir+remove) through the same view object; plus sibling views: parent views at depth 0..7 (thorough 12; step by step and with one joined path) x 5 view implementations, two children and a grandchild obtained from one parent object in 3 orders x 5 operations; distinct = (view, op, path) cases, non-trivial = all (every case touches a populated store)",
 		Run:  run, Replay: replay,
 		Assumptions: []string{"segment bound as stated; the 'randomly beyond the bound' part of the quantifier is not claimed", "one store shape; the view root itself counts as inside", "a result is a leak when it returns content/listing/stat of a node outside the root (canary contents and names are unique)"}})
 }
